@@ -89,6 +89,23 @@ func OpenWALStorage(cfg WALStorageConfig) (*WALStorage, error) {
 			if firstSeg == 0 {
 				firstSeg = info.SegmentID
 			}
+			if last, _ := ws.mem.LastIndex(); entries[0].Index > last+1 {
+				// Older records went away with their (collected) segments. That is fine up to
+				// the manifest's truncation point: seed the log there.
+				t := ws.pointer.TruncatedIndex
+				if t+1 < entries[0].Index {
+					return fmt.Errorf("raftstore: group %d log gap: have up to %d, next record starts at %d, truncated at %d",
+						cfg.GroupID, last, entries[0].Index, t)
+				}
+				if t >= entries[len(entries)-1].Index {
+					return nil // the whole record lies below the truncation point
+				}
+				seed, _ := ws.mem.Snapshot()
+				seed.Metadata.Index, seed.Metadata.Term = t, ws.pointer.TruncatedTerm
+				if err := ws.mem.ApplySnapshot(seed); err != nil {
+					return err
+				}
+			}
 			if err := ws.mem.Append(entries); err != nil {
 				return err
 			}
